@@ -106,8 +106,8 @@ namespace igris
 
             invalidate();
 
-            m_data = m_alloc.allocate(m_size);
             m_size = other.m_size;
+            m_data = m_alloc.allocate(m_size);
             m_capacity = m_size;
             for (auto ip = other.m_data, op = m_data;
                  ip != other.m_data + other.m_size;
